@@ -39,7 +39,17 @@ pub fn check_case(prop: &str, c: &Case) -> CaseResult {
     let out = match roundtrip(&c.wasm, &cfg, with_gc) {
         Ok(o) => o,
         Err(f) => {
-            // acceptance and panics are judged by C05 / C02; here the case simply has no output
+            // acceptance and panics are judged by C05 / C02; here the case simply has no output -
+            // except that for C03 a panic while emitting a module walrus accepted means that no
+            // instruction of it survived the round trip
+            if prop == "C03" {
+                if let crate::pipe::Fail::Panic { stage, msg } = &f {
+                    if *stage != "parse" {
+                        r.violations.push(Violation::new(prop, format!("no-instruction-survives:{}-panic:{}", stage, crate::pipe::norm_panic(msg)), msg.clone(), c));
+                        return r;
+                    }
+                }
+            }
             r.note = Some(format!("{}: no output ({}) for {}:{}", prop, f.signature(), c.family, c.coords));
             return r;
         }
@@ -63,6 +73,25 @@ pub fn check_case(prop: &str, c: &Case) -> CaseResult {
     match iso(&a, &b, if with_gc { IsoMode::Gc } else { IsoMode::RoundTrip }) {
         Ok(maps) => {
             r.nontrivial = maps.renumbered() || maps.elided_ops > 0 || maps.inserted_else > 0 || out != c.wasm;
+            if with_gc && prop == "C04" {
+                // what the pass was asked to drop is the unused; a table / memory it keeps still is
+                // initialised by every one of its active segments
+                use wmodel::decode::{DataMode, ElemMode, Space};
+                for (i, e) in a.elems.iter().enumerate() {
+                    if let ElemMode::Active { table, .. } = &e.mode {
+                        if maps.f(Space::Table, *table).is_some() && maps.f(Space::Elem, i as u32).is_none() {
+                            r.violations.push(Violation::new(prop, "after-gc:active-segment-of-kept-table-dropped", format!("table {} survives gc, its active element segment {} does not", table, i), c));
+                        }
+                    }
+                }
+                for (i, d) in a.datas.iter().enumerate() {
+                    if let DataMode::Active { memory, .. } = &d.mode {
+                        if maps.f(Space::Mem, *memory).is_some() && maps.f(Space::Data, i as u32).is_none() {
+                            r.violations.push(Violation::new(prop, "after-gc:active-segment-of-kept-memory-dropped", format!("memory {} survives gc, its active data segment {} does not", memory, i), c));
+                        }
+                    }
+                }
+            }
         }
         Err(ms) => {
             r.nontrivial = true;
@@ -109,6 +138,13 @@ pub fn run(prop: &'static str, args: &Args) -> i32 {
     let fams: &[&str] = if prop == "C03" { &["fixtures", "struct", "funcs", "locals", "names", "ctrl", "idshift", "leb", "reach", "minimal"] } else { &["fixtures", "struct", "funcs", "locals", "names", "customs", "reach", "leb", "idshift", "minimal"] };
     let ms = crate::props::families::members(fams, args, &mut ev);
     let mut cases: Vec<Case> = ms.iter().map(|m| Case::of(m).with(Cfg::default().json())).collect();
+    if prop == "C04" {
+        for m in ms.iter().filter(|m| ["reach", "minimal", "struct", "fixtures"].contains(&m.family)) {
+            let mut j = Cfg::default().json();
+            j["gc"] = json!(true);
+            cases.push(Case::of(m).with(j));
+        }
+    }
     if prop == "C03" {
         for m in ms.iter().filter(|m| ["reach", "minimal", "struct", "funcs"].contains(&m.family)) {
             let mut j = Cfg::default().json();
